@@ -90,6 +90,16 @@ def gen_column(rng, kind, n, pattern="none"):
     raise ValueError(kind)
 
 
+_NS_PER = {"ns": 1, "us": 10 ** 3, "ms": 10 ** 6, "s": 10 ** 9, "m": 60 * 10 ** 9, "h": 3600 * 10 ** 9, "D": 86400 * 10 ** 9}
+
+
+def _exact_ns(x):
+    """nanoseconds of a numpy datetime64 / timedelta64 as an unbounded Python int (a wrong instant far outside the
+    nanosecond range must compare unequal, not stop the harness)"""
+    unit = np.datetime_data(x.dtype)[0]
+    return int(x.astype("int64")) * _NS_PER[unit]
+
+
 def canon_cell(v):
     """canonical, fastparquet-independent rendering of one cell"""
     if v is None or v is pd.NA or v is pd.NaT:
@@ -105,17 +115,17 @@ def canon_cell(v):
     if isinstance(v, pd.Timestamp):
         if v is pd.NaT:
             return ("null",)
-        return ("ts", int(v.value) if v.unit == "ns" else int(v.as_unit("ns").value))
+        return ("ts", _exact_ns(v.asm8))
     if isinstance(v, pd.Timedelta):
-        return ("td", int(v.value))
+        return ("td", _exact_ns(v.asm8))
     if isinstance(v, np.datetime64):
         if np.isnat(v):
             return ("null",)
-        return ("ts", int(v.astype("datetime64[ns]").astype("int64")))
+        return ("ts", _exact_ns(v))
     if isinstance(v, np.timedelta64):
         if np.isnat(v):
             return ("null",)
-        return ("td", int(v.astype("timedelta64[ns]").astype("int64")))
+        return ("td", _exact_ns(v))
     if isinstance(v, bytes):
         return ("y", v.hex())
     if isinstance(v, str):
